@@ -22,7 +22,11 @@ def S(name, run, quick=None, thorough=None, shards=(1, 16), race=False, tiers=("
 
 
 STAGES = {
+    "C16": [S("regress", "^TestC16Regress$"),
+            S("schedules", "^TestC16$", quick=3000, thorough=20000, shards=(4, 16)),
+            S("schedules-race", "^TestC16$", quick=300, thorough=3000, shards=(2, 16), race=True)],
     "C17": [S("grid", "^TestC17$", shards=(4, 16))],
+    "C02": [S("programs", "^TestC02$", quick=1500, thorough=6000, shards=(4, 16))],
     "C03": [S("regress", "^TestC03Regress$"),
             S("structured", "^TestC03$", quick=1500, thorough=10000, shards=(4, 16)),
             S("raw", "^TestC03Raw$", quick=8000, thorough=60000, shards=(4, 16))],
